@@ -478,7 +478,8 @@ Definition fresh_iface (m : option N) : N := match m with Some r => r | None => 
 (* request.invoke_exception_view looks exception views up with request_iface.combined: the combined interface
    of the route (id 3 for the route interface 2 of the harness's world); IRequest.combined is IRequest *)
 Definition combined_iface (i : N) : N := if N.eqb i 2 then 3%N else i.
-Definition lookup_iface (cl rq : N) : N := if N.eqb cl 1 then combined_iface rq else rq.
+Definition lookup_iface (cl rq : N) : N :=
+  if N.eqb cl 1 then (if excview_uses_combined then combined_iface rq else rq) else rq.
 
 (* ---- a commit on the live registry: the view actions run one after the other, each one is the whole register
    program (registration AND clear inside the same action); when an action of the commit raises, the actions
@@ -768,3 +769,18 @@ Definition sro_change_claim (LP RP : list instr) : Prop :=
     reg_free sro' KeyFull LP RP st1 (SpawnLookup k :: tr2) = true ->
     exists t, threads st2 (ntid st1) = Some t /\ tkind t = KLookup /\ tkey t = k /\
               (cont t = [] -> tres t = Some (lookup_all sro' (R st1) k)).
+
+(* a re-initialisation INTERLEAVED with lookups (outside the property's quantifier, which interleaves lookups and
+   registrations only): the init program is split into the part already executed ([pre]) and the rest ([post]);
+   lookups run in between.  The claim "afterwards every lookup is fresh" would be: *)
+Definition reinit_interleaved_claim (LP RP : list instr) (IP : list init_instr) : Prop :=
+  forall sro R0 pre post trm k tr2,
+    pre ++ post = IP ->
+    let st0 := reinit pre (init R0) in
+    let st1 := reinit post (exec sro KeyFull LP RP trm st0) in
+    reg_free sro KeyFull LP RP st0 trm = true ->
+    idleb st1 = true ->
+    let st2 := exec sro KeyFull LP RP (SpawnLookup k :: tr2) st1 in
+    reg_free sro KeyFull LP RP st1 (SpawnLookup k :: tr2) = true ->
+    exists t, threads st2 (ntid st1) = Some t /\ tkind t = KLookup /\ tkey t = k /\
+              (cont t = [] -> tres t = Some (lookup_all sro (R st1) k)).
